@@ -316,8 +316,10 @@ func (r *Run) Finish(minNonTrivial int) int {
 		ev["assumptions"] = []string{}
 	}
 	b, _ := json.MarshalIndent(ev, "", " ")
-	_ = os.MkdirAll(filepath.Join(Root(), "evidence"), 0o755)
-	_ = os.WriteFile(filepath.Join(Root(), "evidence", r.Prop+".json"), b, 0o644)
+	if os.Getenv("VERIF_NO_EVIDENCE") == "" { // set by tools/coverage.sh only
+		_ = os.MkdirAll(filepath.Join(Root(), "evidence"), 0o755)
+		_ = os.WriteFile(filepath.Join(Root(), "evidence", r.Prop+".json"), b, 0o644)
+	}
 
 	keys := make([]string, 0, len(r.knownSeen))
 	for k := range r.knownSeen {
@@ -416,4 +418,14 @@ func (r *Run) TooMany() bool {
 		n += c
 	}
 	return n >= 25
+}
+
+// Exit ends the child process with the verdict code. Under tools/coverage.sh
+// (VERIF_NO_EVIDENCE set) the test returns normally instead so that the
+// coverage profile is written.
+func Exit(code int) {
+	if os.Getenv("VERIF_NO_EVIDENCE") != "" {
+		return
+	}
+	os.Exit(code)
 }
